@@ -20,7 +20,7 @@ import (
 func init() { register("C18", checkC18) }
 
 func checkC18(c *core.Ctx) {
-	c.Explainf("C18 (decided clauses). R1 worklist discipline in File.Generate: imports are appended to the worklist only past the miss edge of the `imported[path]` test and the path is marked imported on that path, so every file's imports are expanded once and the loop is bounded by the number of distinct paths. R2: the directory an import path is joined to depends on the worklist element (the importing file), not on a value computed once from the root file. R3 DFS discipline in dgraph.findCycle: the node is pushed on the stack on entry and popped on every non-cycle exit, the cycle test consults the stack before recursing, and nodes already fully explored are not descended into again (otherwise shared sub-graphs are re-walked exponentially). R4: both import modes cover every definition kind of File (combined mode appends every slice-typed field of File but Imports; separate mode namespaces and appends every record/enum kind), and FindCycle runs iff the mode is separate, before any output is written. R5: a graph edge is added for every import occurrence, before the de-duplication `continue`. R6: the generator's source, folded by the evaluator over an import scenario (root -> sub/a.bop -> deep/b.bop -> c.bop, each next to its importer) served from a virtual file system, opens each file relative to its importer, and in both modes the emitted file type-checks; combined mode declares every type the imported files define. NOT decided: 'exactly when cyclic' for files without go_package (node \"\"); wire equivalence with the inlined schema (C01-C03 on the concatenation).")
+	c.Explainf("C18 (decided clauses). R1 worklist discipline in File.Generate: imports are appended to the worklist only past the miss edge of the `imported[path]` test and the path is marked imported on that path, so every file's imports are expanded once and the loop is bounded by the number of distinct paths. R2: the directory an import path is joined to depends on the worklist element (the importing file), not on a value computed once from the root file. R3e: whatever the form of the search, the set whose membership reports a cycle never gains the target of an edge inside the edge loop (a node is on the path when it is entered, not when it is queued: otherwise a diamond is reported as a cycle). R3 DFS discipline in dgraph.findCycle: the node is pushed on the stack on entry and popped on every non-cycle exit, the cycle test consults the stack before recursing, and nodes already fully explored are not descended into again (otherwise shared sub-graphs are re-walked exponentially). R4: both import modes cover every definition kind of File (combined mode appends every slice-typed field of File but Imports; separate mode namespaces and appends every record/enum kind), and FindCycle runs iff the mode is separate, before any output is written. R5: a graph edge is added for every import occurrence, before the de-duplication `continue`. R6: the generator's source, folded by the evaluator over an import scenario (root -> sub/a.bop -> deep/b.bop -> c.bop, each next to its importer) served from a virtual file system, opens each file relative to its importer, and in both modes the emitted file type-checks; combined mode declares every type the imported files define. NOT decided: 'exactly when cyclic' for files without go_package (node \"\"); wire equivalence with the inlined schema (C01-C03 on the concatenation).")
 	p := loadRepo(c)
 	if p == nil {
 		return
@@ -453,6 +453,66 @@ func checkC18(c *core.Ctx) {
 		a, ok1 := ast.Unparen(call.Args[0]).(*ast.Ident)
 		b, ok2 := ast.Unparen(call.Args[1]).(*ast.Ident)
 		return ok1 && ok2 && (m == nil || igInfo.ObjectOf(a) == m) && igInfo.ObjectOf(b) == k
+	}
+	// R3e, whatever the form of the search (recursive or with its own work
+	// list): the set whose membership reports a cycle (`if _, ok := S[x]; ok
+	// { return <path> }`) holds the nodes of the path being followed. It may
+	// gain the node whose edges are being followed, never the target of an
+	// edge inside the edge loop: a node marked when it is merely queued makes
+	// a second edge to it (a diamond) look like a cycle.
+	{
+		var onPath types.Object
+		ast.Inspect(fc.Body, func(n ast.Node) bool {
+			ifs, ok := n.(*ast.IfStmt)
+			if !ok || ifs.Init == nil || !endsInReturn(ifs.Body) || lastResultIsNil(ifs.Body.List[len(ifs.Body.List)-1].(*ast.ReturnStmt)) {
+				return true
+			}
+			as, ok := ifs.Init.(*ast.AssignStmt)
+			if !ok || len(as.Lhs) != 2 || len(as.Rhs) != 1 || wire.Canon(ifs.Cond) != wire.Canon(as.Lhs[1]) {
+				return true
+			}
+			if ix, ok := ast.Unparen(as.Rhs[0]).(*ast.IndexExpr); ok {
+				if id, ok := ast.Unparen(ix.X).(*ast.Ident); ok {
+					if _, isMap := igInfo.TypeOf(id).Underlying().(*types.Map); isMap {
+						onPath = igInfo.ObjectOf(id)
+					}
+				}
+			}
+			return true
+		})
+		if onPath != nil {
+			bad := ""
+			ast.Inspect(fc.Body, func(n ast.Node) bool {
+				rs, ok := n.(*ast.RangeStmt)
+				if !ok {
+					return true
+				}
+				tgt, ok := rs.Value.(*ast.Ident)
+				if !ok {
+					return true
+				}
+				to := igInfo.ObjectOf(tgt)
+				ast.Inspect(rs.Body, func(m ast.Node) bool {
+					as, ok := m.(*ast.AssignStmt)
+					if !ok || len(as.Lhs) != 1 {
+						return true
+					}
+					ix, ok := ast.Unparen(as.Lhs[0]).(*ast.IndexExpr)
+					if !ok {
+						return true
+					}
+					a, ok1 := ast.Unparen(ix.X).(*ast.Ident)
+					b, ok2 := ast.Unparen(ix.Index).(*ast.Ident)
+					if ok1 && ok2 && igInfo.ObjectOf(a) == onPath && igInfo.ObjectOf(b) == to {
+						bad = p.Pos(as.Pos())
+					}
+					return true
+				})
+				return true
+			})
+			c.Check("R3e", "findCycle puts a node on the path set when it is entered, not when an edge to it is seen", p.Pos(fc.Pos()), bad == "",
+				"the edge loop stores the edge's target into the set that reports cycles (at "+bad+"): a node queued by one importer and reached again through a sibling is reported as an import cycle although the graph is a diamond")
+		}
 	}
 	ast.Inspect(fc.Body, func(n ast.Node) bool {
 		if es, ok := n.(*ast.ExprStmt); ok && isDeleteOf(es, nil, node) {
